@@ -763,7 +763,7 @@ class Ex:
             return self.unpack(v.val, n, node)
         raise Unsupported("unpack of %r" % (v,))
 
-    def setattr(self, obj, name, v):
+    def setattr(self, obj, name, v, raw=False):
         if isinstance(obj, VOpt):
             if self.branch(obj.isnone):
                 self.raise_(AttributeError)
@@ -772,6 +772,14 @@ class Ex:
             hook = self.world.setattr_hooks.get(obj.cls)
             if hook is not None and not self.spec_mode:
                 if hook(self, obj, name, v):
+                    return
+            # a class that defines __setattr__ intercepts every attribute store
+            if not raw and not self.spec_mode:
+                mod = self.world.module_of_class(obj.cls)
+                hit = mod.mro_lookup(obj.cls, "__setattr__") if mod is not None else None
+                if hit is not None and hit[0] == "method":
+                    f = VFunc("user", "%s.__setattr__" % hit[2].name, node=hit[1], cls=hit[2].name, module=mod)
+                    self.call(f.bind(obj), [lift(name), v], {})
                     return
             if self.taint is not None:
                 self.taint.on_store(self, obj, name, v)
